@@ -104,7 +104,7 @@ fn check_file(doc: &Doc, a: &ast::Aidl, item_qnames: &HashMap<String, String>, s
 }
 
 pub fn run(ctx: &Ctx) -> i32 {
-    let n = ctx.tier.pick(8_000u64, 120_000);
+    let n = ctx.tier.pick(5_000u64, 120_000);
     let stats = par_cases(ctx, "projects", n, Duration::from_secs(ctx.tier.pick(80, 900)), |i, rng, st| {
         let cfg = ProjCfg { allow_collisions: false, max_type_depth: 3, broken_files: false, ..ProjCfg::default() };
         let pr = proj::project(rng, &cfg);
